@@ -291,7 +291,7 @@ PROPS = {
         rule="winsorize (quantile q in [0,0.5], median +- k MAD, mean +- k sigma) on len 0..N x 10 null patterns x 14 value classes + random "
              "len<=120: one value per input, nulls kept, values strictly inside the recomputed bounds unchanged exactly, values outside "
              "moved onto the nearer bound (tolerance zone tau), order preserved; Spearman = Pearson of own average ranks, exact invariance "
-             "under x->2x+1, x^3, exp(x/4); half_life on an instrumented SpyVec (pass budget 4(ceil(log2 len)+2)+8, dbg and rel): no panic, "
+             "under x->2x+1, x^3, exp(x/4); half_life on an instrumented SpyVec (pass budget 4 len + 64 passes over the data, dbg and rel): no panic, "
              "result in [1,len-1] (0 iff len<2), and = min(L,len-1) on series whose brute-force lag autocorrelation is > 0.5+d below L and "
              "< 0.5-d from L on (AR(1) paths of every persistence, trends, alternating, with nulls). distinct = (function, method / "
              "parameters, len, result)",
